@@ -25,6 +25,8 @@ from harness.lib.wire_common import vr
 COMPONENTS = ["wire"]
 CONSTS = ["wire", "wiregen"]  # "wiregen": the model terms regenerated from the AST (harness/consts/wiregen.py), proved equal to the hand-written model
 TRUSTED = [
+    "snappy: python-snappy is not installed; afkak.codec.snappy_decode / snappy_encode (xerial framing) are compared with the model Afkak/Wire/Xerial.lean through a stub `snappy` module object (identity compress / decompress with a call budget) - the real compressor is a trusted external",
+    "harness/lib/wire_translate.py (Python AST -> Lean translator for the typed, exception-raising functions of _util.py / kafkacodec.py; documented subset, nothing dropped silently except the guards it lists in the generated file) and the library primitives its terms are written in (Afkak/Wire/Primitives.lean + GenPrims.lean: struct pack/unpack/calcsize incl. %s repeat counts, slicing, encode/decode, dict/defaultdict, nativeString, the generator monad Y): the C0x_generated_*_eq_model obligations are about the terms it emits",
     "the Kafka protocol grammar as written in Afkak/Wire/Spec.lean (from the protocol guide) and, independently, in harness/sim/refcodec.py; their encodings are compared byte for byte on every run",
     "Afkak.Wire.Crc.crc32 (used to RUN grammar and model) is compared with zlib.crc32 on every run (C04 run); the theorems hold for any checksum function",
     "gzip is a parameter of the model and the theorems, which assume only gunzip(gzip x) = x; that assumption is CHECKED on the implementation every run: afkak.codec.gzip_decode / gzip_encode are compared with an independent RFC 1952 decompressor (zlib's gzip framing, member by member: harness/props/c05.py ref_gunzip) on single- and multi-member streams (empty members, optional header fields, zero padding) and on invalid ones (cut short, damaged trailer, trailing non-member bytes); wrapper payloads in the generated sets are written as 1..4 gzip members; for a payload the harness compressed itself the model and the monitor are given the data that was compressed (not the real function's answer) and the real gzip_decode's answer is checked against it",
@@ -369,6 +371,21 @@ def run_roundtrip(ctx, res, scs):
             val = vr([[0, m] for m in exp_msgs])  # create_gzip_message stores every inner offset as 0
             lines += ["ext-clear", "ext-now i%d" % now, "spec-enc msgset " + val]
             owner += [(sc, "state", None), (sc, "state", None), (sc, "enc-inner", ["ok " + vr(inner)])]
+            # the whole path of C05_producer_batch_roundtrip on the REAL code: the wrapper goes through
+            # _encode_message_set (what the produce encoder writes for the partition) and the bytes through
+            # _decode_message_set_iter; the monitor judges the result against the messages that went in
+            # (the model and the monitor are told what the payload decompresses to: the reference's answer)
+            try:
+                with W.Externals(now):
+                    wdata = K._encode_message_set([wrapper])
+                    wline = R.real_decode_set_line(wdata)
+            except Exception as e:  # noqa: BLE001
+                res.disagreements.append({"component": "wire", "scenario": clean(sc), "impl": "encoding the wrapper raised %s: %s" % (type(e).__name__, str(e)[:200]), "model": "a wrapper built by create_gzip_message encodes"})
+                continue
+            wval = vr([[0, [wrapper.magic, wrapper.attributes, wrapper.timestamp, wrapper.key, wrapper.value]]])
+            lines += ["ext-gunzip %s %s" % (vr(wrapper.value), vr(inner)), "dec-set %s" % vr(wdata), "mon-c05 msgset %s | %s" % (wval, wline)]
+            owner += [(sc, "state", None), (sc, "corr", [wline]), (sc, "monw", ["c05-encode-decode-not-identity"])]
+            res.count("op:roundtrip:wrapper-encoded-and-decoded")
             continue
         val = vr([[(0 if off is None else off + i), m] for i, m in enumerate(exp_msgs)])
         lines += ["ext-clear", "ext-now i%d" % now, "dec-set %s" % vr(data), "mon-c05 msgset %s | %s" % (val, line), "spec-enc msgset " + val]
@@ -381,9 +398,9 @@ def run_roundtrip(ctx, res, scs):
             res.traces_validated += 1
             if g != x:
                 res.disagreements.append({"component": "wire", "scenario": clean(sc), "request": line[:3000], "impl": trunc(x), "model": trunc(g)})
-        elif kind == "mon":
+        elif kind in ("mon", "monw"):
             v = g[0] if g else "none"
-            res.count("monitor:" + v)
+            res.count(("monitor:" if kind == "mon" else "monitor:wrapper-through-encoder-and-decoder:") + v)
             if v not in ("ok", "out-of-range"):
                 res.monitor_failures.append({"what": "encoding messages with the real encoder and decoding the bytes with the real decoder did not give the messages back",
                                              "scenario": clean(sc), "monitor_line": line[:6000], "verdict": trunc(g, 3000), "tags": list(x)})
@@ -624,14 +641,154 @@ def merge(res, r):
         res.sample(s)
 
 
+def xerial_cases(ctx, res, n):
+    """afkak.codec.snappy_decode / snappy_encode(xerial_compatible=True) against the model Afkak/Wire/Xerial.lean.
+    python-snappy is not installed: the module object `afkak.codec.snappy` is replaced for the duration of the
+    stage by a stub whose compress / decompress are the identity and whose decompress raises after BUDGET calls
+    (so a payload on which the `while cursor < length` loop does not end - a negative block size - ends the
+    real call with the stub's exception; the model reports `fuel` with fuel = BUDGET + 1).  Payloads: well-formed
+    streams of 0..4 blocks, and streams whose length fields are 0, too large, negative (-1..-40, -4 = the cursor
+    returns to where it was), arbitrary int32, cut short, followed by garbage; payloads without the header."""
+    import struct
+    import types
+
+    import afkak.codec as AC
+
+    rng = ctx.rng
+    BUDGET = 12
+
+    class Budget(Exception):
+        pass
+
+    calls = [0]
+
+    def decomp(b):
+        calls[0] += 1
+        if calls[0] > BUDGET:
+            raise Budget()
+        return bytes(b)
+
+    had = hasattr(AC, "snappy")
+    old = (getattr(AC, "snappy", None), AC._has_snappy)
+    AC.snappy = types.SimpleNamespace(decompress=decomp, compress=lambda b: bytes(b))
+    AC._has_snappy = True
+    cases, lines = [], []
+    try:
+        for i in range(n):
+            kind = rng.choice(["good", "good", "sizes", "sizes", "sizes", "cut", "garbage", "nohdr"])
+            blocks = [bytes(rng.getrandbits(8) for _ in range(rng.choice([0, 1, 2, 5, 9]))) for _ in range(rng.randint(0, 4))]
+            payload = AC._XERIAL_HEADER
+            for b in blocks:
+                size = len(b)
+                if kind == "sizes" and rng.random() < 0.6:
+                    size = rng.choice([0, len(b) + rng.randint(1, 9), -4, -rng.randint(1, 40), rng.randint(-2**31, 2**31 - 1), -(len(b) + 4), -8])
+                payload += struct.pack("!i", size) + b
+            if kind == "cut" and len(payload) > 16:
+                payload = payload[:rng.randint(16, len(payload) - 1)]
+            elif kind == "garbage":
+                payload += bytes(rng.getrandbits(8) for _ in range(rng.randint(1, 6)))
+            elif kind == "nohdr":
+                payload = bytes(rng.getrandbits(8) for _ in range(rng.randint(0, 24)))
+                if rng.random() < 0.3:
+                    payload = AC._XERIAL_HEADER[:rng.randint(1, 15)] + payload
+            calls[0] = 0
+            try:
+                real = "ok " + vr(AC.snappy_decode(payload))
+            except Budget:
+                real = "error fuel"
+            except struct.error:
+                real = "error struct.error"
+            except Exception as e:  # noqa: BLE001 - anything else is reported as it is
+                real = "error " + type(e).__name__
+            cases.append(({"op": "xerial", "payload": payload.hex()}, real))
+            lines.append("xerial %s %s" % (vr(payload), vr(BUDGET + 1)))
+            res.count("xerial:%s:%s" % (kind, real.split()[0] if real.startswith("ok") else real))
+            if i % 3 == 0:
+                data = b"".join(blocks)
+                bs = rng.randint(1, 7)
+                calls[0] = 0
+                enc = AC.snappy_encode(data, xerial_compatible=True, xerial_blocksize=bs)
+                chunks = [data[k:k + bs] for k in range(0, len(data), bs)]
+                cases.append(({"op": "xerial-enc", "data": data.hex(), "blocksize": bs}, "ok " + vr(enc)))
+                lines.append("xerial-enc " + vr(chunks))
+                res.count("xerial:encode")
+    finally:
+        AC._has_snappy = old[1]
+        if had:
+            AC.snappy = old[0]
+        else:
+            del AC.snappy
+    got = ctx.model("wire", lines) if lines else []
+    for (sc, real), g in zip(cases, got):
+        res.evaluations += 1
+        model = g[0] if g else "no answer"
+        if sc["op"] == "xerial" and real.startswith("ok"):
+            res.nontrivial(["xerial", sc["payload"][:200]])
+        if model != real:
+            res.disagreements.append({"component": "xerial", "scenario": sc, "impl": real[:300], "model": model[:300]})
+    res.traces_validated += len(cases)
+
+
+def xerial_one(ctx, sc):
+    """one stored xerial scenario on the current tree -> (real, model)"""
+    import struct
+    import types
+
+    import afkak.codec as AC
+
+    BUDGET = 12
+    calls = [0]
+
+    class Budget(Exception):
+        pass
+
+    def decomp(b):
+        calls[0] += 1
+        if calls[0] > BUDGET:
+            raise Budget()
+        return bytes(b)
+
+    had = hasattr(AC, "snappy")
+    old = (getattr(AC, "snappy", None), AC._has_snappy)
+    AC.snappy = types.SimpleNamespace(decompress=decomp, compress=lambda b: bytes(b))
+    AC._has_snappy = True
+    try:
+        if sc["op"] == "xerial":
+            payload = bytes.fromhex(sc["payload"])
+            line = "xerial %s %s" % (vr(payload), vr(BUDGET + 1))
+            try:
+                real = "ok " + vr(AC.snappy_decode(payload))
+            except Budget:
+                real = "error fuel"
+            except struct.error:
+                real = "error struct.error"
+            except Exception as e:  # noqa: BLE001
+                real = "error " + type(e).__name__
+        else:
+            data, bs = bytes.fromhex(sc["data"]), sc["blocksize"]
+            real = "ok " + vr(AC.snappy_encode(data, xerial_compatible=True, xerial_blocksize=bs))
+            line = "xerial-enc " + vr([data[k:k + bs] for k in range(0, len(data), bs)])
+    finally:
+        AC._has_snappy = old[1]
+        if had:
+            AC.snappy = old[0]
+        else:
+            del AC.snappy
+    got = ctx.model("wire", [line])
+    return real, (got[0][0] if got and got[0] else "no answer")
+
+
 def run(ctx, res):
     res.rule = ("well-formed values of every response type (0..4 topics x 0..5 partitions, every error code incl. boundary int16, boundary int32/int64, "
                 "null/empty/large byte fields, ASCII and UTF-8 names, sorted and permuted version tables) and message sets as trees of depth 0..2 "
                 "(both magics, null/empty keys and values, timestamps, gzip wrappers with protocol and arbitrary inner offsets), encoded by the grammar; "
+                "produce / fetch responses decoded under the kind's own api_version or (30-50%) another integer (1, 3..32767, negative, the other layout's: "
+                "judged by the monitor when it selects the encoded layout, else correspondence only); 3% of the plain messages carry codec bits 2..7 (not judged); "
                 "plus truncated / corrupted variants (correspondence only). non-trivial = every well-formed-value scenario (its bytes reached the real decoder "
                 "and the monitor ran on the result). distinct = by content hash.")
     run_scenarios(ctx, res, corpus(), ctx.rng, mutants=0.0)
     gzip_codec_cases(ctx, res, ctx.scale(1500, 20000))
+    xerial_cases(ctx, res, ctx.scale(600, 8000))
     run_roundtrip(ctx, res, roundtrip_scenarios(ctx.rng, ctx.scale(800, 10000)))
     if ctx.tier == "thorough":
         import multiprocessing as mp
@@ -780,6 +937,14 @@ def replay(ctx, data):
         print("RFC 1952 reference :", ref[:1500])
         if real != ref and not (real.startswith("error") and ref.startswith("error")):
             print("VIOLATION property=C05 replay=(this file)" if ref.startswith("ok") else "gzip_decode and the reference disagree on an invalid stream")
+            return 1
+        return 0
+    if sc.get("op") in ("xerial", "xerial-enc"):
+        real, model = xerial_one(ctx, sc)
+        print("afkak.codec (stub snappy module):", real[:1500])
+        print("model Afkak/Wire/Xerial.lean     :", model[:1500])
+        if real != model:
+            print("model and implementation disagree on this scenario (no monitor failure)")
             return 1
         return 0
     if sc.get("op") == "roundtrip":
